@@ -530,10 +530,7 @@ func TestC14_Loaders(t *testing.T) {
 		var certPEM, keyPEM []byte
 		var wantKey interface{}
 		k1 := gen.KeyPair(hx.Root()).Draw(t, "k1")
-		k2 := gen.KeyPair(hx.Root()).Draw(t, "k2")
-		if k1.D.Cmp(k2.D) == 0 {
-			k2 = gen.Key{D: new(big.Int).Add(k1.D, big.NewInt(1)), Pub: cv.BaseMul(new(big.Int).Add(k1.D, big.NewInt(1)))}
-		}
+		k2 := gen.OtherKey(t, hx.Root(), "k2", k1.D, new(big.Int).Sub(cv.N, k1.D))
 		switch certKind {
 		case "sm2":
 			certPEM = sm2Cert(t, k1, "sm2 leaf")
